@@ -118,6 +118,20 @@ func (c *Ctx) sparseCase(specs []blobSpec, pads []int, resPad, tailPad int) {
 		if len(own) > 1 {
 			multi = true
 		}
+		if c.rng.Chance(1, 8) {
+			// an operation that must fail, and must leave the splitter exactly as it was
+			before := sss.Count()
+			var ferr error
+			if i == 0 && c.rng.Bool() {
+				ferr = share.NewSparseShareSplitter().WriteNamespacePaddingShares(1) // padding before any share: on a fresh splitter
+			} else {
+				ferr = sss.WriteNamespacePaddingShares(-1 - c.rng.Intn(3))
+			}
+			c.oracle()
+			if ferr == nil || sss.Count() != before {
+				c.violate("C08", "", "a namespace padding request that must be refused was accepted or changed the splitter", "", c.caseOps)
+			}
+		}
 		err = sss.Write(b)
 		c.emit("sss write "+s.String(), okOr(err, fmt.Sprintf("ok %d", sss.Count())))
 		if i < len(pads) && pads[i] > 0 {
